@@ -61,6 +61,24 @@ def check(ctx):
                 found = True
                 ctx.violation("counterexample", "fs (%s): data race, concurrent map access or runtime-detected deadlock inside the library" % impl,
                               {"proto": "hconc-fs-race", "impl": impl, "args": args, "seed": ctx.seed * 100 + k}, expected="no data race, no fatal error of the Go runtime", observed=report)
+        # ---- overlapping AtomicCreate calls for ONE (dir, name): the random workloads above rarely overlap two of them, and a recorded
+        #      history of many such overlapping calls is expensive to search; the judgement here is the direct one (the creators of
+        #      C13's interference clause, hconc atomic -mode same): linearizable means every content a reader sees, and the final
+        #      content, is the complete data of exactly one of the calls, and every call returns
+        for impl in ("dir", "mem"):
+            rounds, report = conc.run_hconc("atomic", ["-impl", impl, "-mode", "same", "-seed", str(ctx.seed), "-scratch", scratch,
+                                                        "-rounds", "6" if quick else "60", "-threads", "4", "-ops", "60" if quick else "200"])
+            stats["atomic-same/%s" % impl] = {"rounds": len(rounds), "operations": sum(r["ops"] for r in rounds), "not_linearizable": 0, "race_reports": 0}
+            bad = [r for r in rounds if r.get("problem")]
+            if report and not bad:
+                bad = [{"problem": "the Go runtime reported: " + report[:800]}]
+            if bad and not found:
+                found = True
+                stats["atomic-same/%s" % impl]["not_linearizable"] = len(bad)
+                ctx.violation("counterexample", "fs (%s): overlapping AtomicCreate calls for one name are not linearizable" % impl,
+                              {"proto": "hconc-atomic", "impl": impl, "mode": "same", "seed": ctx.seed},
+                              expected="every observed content is the complete data of one AtomicCreate for that name, and every call returns",
+                              observed=bad[0].get("problem", "")[:1500])
         # ---- the one-client case of linearizability: directed sequential histories with links, deletes and listings that cross
         #      directories (a cache or index kept per directory shows here first), both implementations against the reference model
         ops = list(c12.DIRECTED)
